@@ -9,6 +9,7 @@
 (*                                  the recording process, projected initial default tree  *)
 (*   behaviour {regs, events}       events: {"a":"new",r} | {"a":"reg",r,t,ops,exact,off,      *)
 (*                                  tree,map} | {"a":"look",r,t,op,obs,cached}             *)
+(*                                  | {"a":"regop",r,op,byname,order,tree,map}             *)
 (* The machine of GlomRegistry is stepped through the events with its own actions        *)
 (* (Register / Lookup / NewGlommer); after each step                                     *)
 (*   LAW        the handler observed through glom() (obs = the handler tags consistent    *)
@@ -60,6 +61,8 @@ Step ==
         /\ verdict' = JudgeReg(regs'[e.r], e)
      \/ /\ e.a = "look" /\ Lookup(e.r, e.t, e.op)
         /\ verdict' = JudgeLook(regs[e.r], e, hist'[Len(hist')].h)
+     \/ /\ e.a = "regop" /\ RegisterOpAct(e.r, e.op, e.byname, e.order)
+        /\ verdict' = JudgeReg(regs'[e.r], e)
      \/ /\ e.a = "new" /\ NewGlommer(e.r, Hdr.known_order)
         /\ verdict' = IF ~e.mech \/ regs'[e.r].tree = e.tree THEN <<>> ELSE << V("drift", "new-tree", "") >>
   /\ j' = j + 1 /\ i' = i
